@@ -19,7 +19,7 @@ type (
 	Uintptr = atomic.Uintptr
 )
 
-func pt(p unsafe.Pointer) { sched.Point(sched.OpAtomic, nil, p) }
+func pt(p unsafe.Pointer) { sched.Point(sched.OpAtomic, sched.KNone, nil, p) }
 
 func AddUint64(a *uint64, d uint64) uint64 { pt(unsafe.Pointer(a)); return atomic.AddUint64(a, d) }
 func LoadUint64(a *uint64) uint64          { pt(unsafe.Pointer(a)); return atomic.LoadUint64(a) }
